@@ -3,6 +3,7 @@ package sim
 import (
 	"context"
 	"fmt"
+	"runtime"
 	"strconv"
 	"strings"
 	"sync"
@@ -449,6 +450,64 @@ func scQueueBurst(r *Run) {
 	r.StopTasks()
 }
 
+// scQueueCancelBurst: "both return promptly on cancellation", for a cancellation that arrives while the waiter is on
+// its way into the wait. Many rounds per run: a fresh queue (empty, or filled up to the waiter's threshold), one
+// goroutine entering pull or waitUntilSizeIsBelow and one cancelling the context after a seeded number of
+// scheduler yields, released in the same step. At rest the waiter must have returned.
+func scQueueCancelBurst(r *Run) {
+	T := r.T
+	rounds := Pick(T, 200, 500, 1500)
+	W := r.Go("waiter")
+	X := r.Go("canceller")
+	r.Tracef("cancel burst rounds=%d", rounds)
+	for i := 0; i < rounds && !r.Failed(); i++ {
+		q := gohlslib.NewVerifSegmentQueue()
+		ctx, cancel := context.WithCancel(context.Background())
+		usePull := T.Chance(1, 2)
+		threshold := T.Intn(3)
+		if !usePull {
+			for k := 0; k <= threshold; k++ {
+				q.Push(uint64(k + 1)) // size > threshold-1: the producer has to wait
+			}
+		}
+		spinW, spinX := T.Intn(8), T.Intn(24)
+		returned := false
+		r.Step()
+		W.StartNoWait(func() {
+			for k := 0; k < spinW; k++ {
+				runtime.Gosched()
+			}
+			if usePull {
+				q.Pull(ctx)
+			} else {
+				q.WaitUntilSizeIsBelow(ctx, threshold)
+			}
+			returned = true
+		})
+		X.StartNoWait(func() {
+			for k := 0; k < spinX; k++ {
+				runtime.Gosched()
+			}
+			cancel()
+		})
+		syncWait()
+		if !returned {
+			what := "waitUntilSizeIsBelow"
+			if usePull {
+				what = "pull"
+			}
+			r.Fail("lost-cancellation", what, "round %d: the context was cancelled while a goroutine was entering %s; at rest it is still waiting", i, what)
+			r.StopTasks()
+			return
+		}
+		cancel()
+	}
+	r.Stats.NonTrivial = true
+	r.Probe("cancel-burst-completed")
+	r.StopTasks()
+}
+
 func init() {
 	Properties["C20"].Profiles = append(Properties["C20"].Profiles, ProfileDef{Name: "queue-burst", Share: 1, Sc: scQueueBurst})
+	Properties["C20"].Profiles = append(Properties["C20"].Profiles, ProfileDef{Name: "queue-cancel-burst", Share: 1, Sc: scQueueCancelBurst})
 }
